@@ -165,6 +165,11 @@ impl Scenario for PaseStorm {
                 script.push(CtlStep::Sleep { ms: 200 });
                 script.push(CtlStep::PaseAttempt { dev: 0, passcode });
             }
+            // Somebody also looks for a node which does not exist: the operational discovery is
+            // taken up by the mDNS responder and never answered
+            if tape::biased(3, 300) == 1 {
+                script.push(CtlStep::ReadOnOff { dev: 99 });
+            }
             // Abandon at an arbitrary await point?
             if self.faults && tape::biased(2, 400) == 1 {
                 let at = (start as u64 + tape::choose(60) as u64) * MS + tape::choose(1000) as u64;
